@@ -313,7 +313,9 @@ def gen_config(seed, n):
             if k == 0: g["np"] = corrupt_prefix(rnd, f["np"])
             elif k == 1: g["vp"] = corrupt_prefix(rnd, f["vp"])
             elif k == 2: g["nd"] = corrupt_denom(rnd)
-            elif k == 3: g["vals"] = f["vals"] + [f["vals"][0]]
+            elif k == 3:
+                # the same validator twice: next to itself or with others in between
+                d = rnd.choice(f["vals"]); g["vals"] = list(f["vals"]); g["vals"].insert(rnd.randrange(len(f["vals"]) + 1), d)
             elif k == 4: g["vals"] = [corrupt_addr(rnd, f["vals"][0], f["vp"])] + f["vals"][1:]
             elif k == 5: g["staker"] = corrupt_addr(rnd, f["staker"], f["np"])
             elif k == 6: g["coll"] = corrupt_addr(rnd, f["coll"], f["np"])
@@ -323,7 +325,10 @@ def gen_config(seed, n):
             elif k == 10: g["orc"] = corrupt_addr(rnd, f["orc"] or b32.addr("osmo", "o"), "osmo")
             elif k == 11: g["tr"] = corrupt_addr(rnd, f["tr"] or b32.addr("osmo", "t"), "osmo")
             elif k == 12: g["sub"] = corrupt_denom(rnd)
-            elif k == 13: g["mons"] = f["mons"] + [f["mons"][0]]
+            elif k == 13:
+                # the same monitor twice: next to itself or with another in between
+                extra = b32.addr("osmo", "monitor-extra")
+                g["mons"] = rnd.choice([f["mons"] + [f["mons"][0]], [f["mons"][0], extra, f["mons"][0]], [extra, f["mons"][0], extra]])
             elif k == 14: g["mons"] = [corrupt_addr(rnd, f["mons"][0], "osmo")]
             elif k == 15: g["vals"] = []
             elif k == 16: g["vals"] = f["vals"] + [f["vals"][0].upper()]          # case-variant duplicate
